@@ -119,7 +119,7 @@ def sha_file(p):
     return h.hexdigest()
 
 
-def run_case(ctx, pair, d, model, queries, ty, cfg, grid):
+def run_case(ctx, pair, d, model, queries, ty, cfg, grid, count=True):
     """Executes one (model, type, config) case.  Returns list of (what, detail) oracle violations and list of
     correspondence disagreements."""
     mult, pb, bb, ab = cfg
@@ -198,8 +198,9 @@ def run_case(ctx, pair, d, model, queries, ty, cfg, grid):
             elif o.split(" enum=")[0] != ref_meta:
                 bad.append(("binary-loaded model reports a different order / vocabulary bound / special ids",
                             {"ref": ref, "loaded": o, "case": t}))
-            ctx.count(("load", hashlib.sha256(model["text"]).hexdigest(), ty, cfg, t), nontrivial=o.startswith("ok") and sum(model["counts"]) >= 8)
-            ctx.hist("load_method", lm)
+            if count:
+                ctx.count(("load", hashlib.sha256(model["text"]).hexdigest(), ty, cfg, t), nontrivial=o.startswith("ok") and sum(model["counts"]) >= 8)
+                ctx.hist("load_method", lm)
         elif k == "layout":
             iv = 1 if t[1].endswith("1") else 0
             if o != lay[iv]:
@@ -382,7 +383,7 @@ def run(ctx):
     try:
         rng = ctx.rng
         quick = ctx.tier == "quick"
-        n_models = 14 if quick else 160
+        n_models = 30 if quick else 500
         models = []
         # fixed coverage first: every order, with/without <unk>, closed/pruned, then random
         for order, wu, pr, size in ((2, True, False, "small"), (3, False, True, "medium"), (4, True, True, "small"),
@@ -391,7 +392,7 @@ def run(ctx):
             models.append(C04_gen.gen_model(rng, order=order, with_unk=wu, pruned=pr, size=size))
         while len(models) < n_models:
             models.append(C04_gen.gen_model(rng))
-        models.sort(key=lambda m: len(m["text"]))
+        models.sort(key=lambda m: len(m["text"]), reverse=bool(os.environ.get("C04_LARGE_FIRST")))   # debug knob: exercise the shrinker
         sample_file = None
         for mi, model in enumerate(models):
             if len(ctx.violations) >= 6:
@@ -406,6 +407,8 @@ def run(ctx):
             if not quick or mi % 2 == 0:
                 pass
             for ty in types:
+                if len(ctx.violations) >= 6:
+                    break
                 cfg = (rng.choice(MULTS), rng.choice([2, 3, 5, 8, 8, 11]), rng.choice([2, 3, 4, 8, 8, 10]),
                        rng.choice([0, 1, 2, 3, 5, 8, 22, 22, 64, 255]))
                 grid = full_grid() if (not quick and mi % 4 == 0) or (quick and mi < 2) else some_grid(rng, 6 if quick else 10)
@@ -420,8 +423,29 @@ def run(ctx):
                     ctx.sample({"type": TYPE_NAMES[ty], "order": model["order"], "counts": model["counts"],
                                 "fixed_counts": model["fixed_counts"], "saw_unk": model["saw_unk"], "cfg": cfg,
                                 "ref": info.get("ref"), "queries": info.get("queries")})
-                replay = {"stream": "binary", "type": ty, "type_name": TYPE_NAMES[ty], "cfg": list(cfg), "grid": grid,
-                          "arpa_b64": base64.b64encode(model["text"]).decode(), "queries_b64": base64.b64encode(queries).decode(),
+                shrunk = None
+                if bad and ctx.notes.get("shrinks", 0) < 2 and sum(model["counts"]) > 10:
+                    ctx.notes["shrinks"] = ctx.notes.get("shrinks", 0) + 1
+                    fgrid = [tuple(det["case"][1:4]) for _, det in bad if isinstance(det.get("case"), (tuple, list)) and det["case"][0] in ("load", "query", "enum", "layout")]
+                    fgrid = (fgrid or list(grid))[:4]
+
+                    def still_fails(m2, cd=cd, ty=ty, cfg=cfg, fgrid=fgrid):
+                        shutil.rmtree(cd, ignore_errors=True)
+                        os.makedirs(cd)
+                        b2, _, _ = run_case(ctx, pair, cd, m2, queries, ty, cfg, fgrid, count=False)
+                        return bool(b2)
+                    small, ntests = C04_gen.shrink(model, still_fails, max_tests=60 if quick else 200)
+                    if len(small["text"]) < len(model["text"]):
+                        shutil.rmtree(cd, ignore_errors=True)
+                        os.makedirs(cd)
+                        bad_s, corr_s, _ = run_case(ctx, pair, cd, small, queries, ty, cfg, fgrid, count=False)
+                        if bad_s:
+                            log("  shrunk failing ARPA from %d to %d bytes in %d tests" % (len(model["text"]), len(small["text"]), ntests))
+                            shrunk = {"original_arpa_bytes": len(model["text"]), "shrink_tests": ntests}
+                            model, bad, corr, grid = small, bad_s, corr_s, fgrid
+                replay = {"stream": "binary", "type": ty, "type_name": TYPE_NAMES[ty], "cfg": list(cfg), "grid": grid, "shrunk": shrunk,
+                          "arpa_b64": base64.b64encode(model["text"]).decode(), "arpa_text": model["text"].decode("utf-8", "replace")[:3000],
+                          "queries_b64": base64.b64encode(queries).decode(),
                           "model_facts": {k: model[k] for k in ("order", "counts", "fixed_counts", "saw_unk", "needs_blanks", "vocab_words")},
                           "replay_cmd": "python3 check.py C04 --replay <this file>"}
                 for what, detail in bad[:3]:
@@ -438,7 +462,7 @@ def run(ctx):
                         sample_file = os.path.join(d, "sample.bin")
                         shutil.copy(src, sample_file)
         # component streams
-        ops = component_ops(rng, 300 if quick else 6000)
+        ops = component_ops(rng, 1500 if quick else 20000)
         # replay of the Lean witness quant_lossy_when_count_exceeds_bins on the real quantiser: -0.25 x3, -0.75, one bit
         ops.insert(0, "quant 1 0 4 %d %d %d %d %d" % (fbits(-0.25), fbits(-0.25), fbits(-0.25), fbits(-0.75), fbits(-0.75)))
         (rc1, o1, e1) = pair.harness(ops)
